@@ -36,6 +36,25 @@ fn decode_prefix(reader: &str, prefix: &[u8], bps: u32) -> (String, Vec<i32>, St
                     }
                 }
             }
+            // the copying front end of the sample reader, with caller buffers that do not line up with the frames
+            "sample-read" => {
+                let mut r = match FlacSampleReader::new(Cursor::new(prefix)) {
+                    Ok(r) => r,
+                    Err(e) => return ("openerr".into(), e.to_string()),
+                };
+                let sizes = [100usize, 7, 600, 33];
+                let mut buf = vec![0i32; 600];
+                let mut k = 0;
+                loop {
+                    let n = sizes[k % sizes.len()];
+                    k += 1;
+                    match r.read(&mut buf[..n]) {
+                        Ok(0) => return ("eos".into(), String::new()),
+                        Ok(m) => got.extend_from_slice(&buf[..m]),
+                        Err(e) => return ("err".into(), e.to_string()),
+                    }
+                }
+            }
             "sample" => {
                 let mut r = match FlacSampleReader::new(Cursor::new(prefix)) {
                     Ok(r) => r,
@@ -194,7 +213,7 @@ pub fn run(job: &Value, t: &mut Trace) -> usize {
         cuts.sort();
         cuts.dedup();
         for k in cuts {
-            for reader in ["byte", "sample", "channel"] {
+            for reader in ["byte", "sample", "sample-read", "channel"] {
                 let (end, got, msg) = decode_prefix(reader, &bytes[..k.min(bytes.len())], bps);
                 let nfr = got.len() / channels as usize;
                 let prefix_ok = got.len() % channels as usize == 0 && got.len() <= pcm.len() && got[..] == pcm[..got.len()];
